@@ -260,8 +260,15 @@ Section StepBalance.
       destruct (call _ _ _ _ _ _ _ _ _ _ _) as [d o|o|d callee o] eqn:Ecall.
       + cbn [fst snd]. split; [exact HT|]. intros O Hn _. pose proof O as [_ Bz].
         apply (quiet_piece r); auto. now apply noev_obs.
-      + rewrite P. specialize (Lv0 (RAbort [("message", vstr "<text>")] e_protocol_violation) eq_refl).
-        destruct (leave r (s_id s)) as [r1 o1]. cbn [fst snd app] in *. destruct Lv0 as [T1 G]. split; [exact T1|]. intros O Hn _. auto.
+      + rewrite P. cbv zeta.
+        destruct (call_abort_realm_wf r s req opts proc oracle k W I) as (Wa & Ia & _). cbv zeta in Wa, Ia.
+        match goal with |- context [leave ?R (s_id s)] => set (ra := R) in * end.
+        assert (Ba : base k ra).
+        { constructor; [exact Wa|exact Ia| |exact HT]. destruct I8 as [A1 A2 A3].
+          constructor; [exact A1|exact A2|apply mregs_call_abort; exact A3]. }
+        destruct (Lv ra [] (RAbort [("message", vstr "<text>")] e_protocol_violation) Ba eq_refl noend_nil eq_refl eq_refl) as [T1 G].
+        destruct (leave ra (s_id s)) as [r1 o1]. cbn [fst snd app] in *. split; [exact T1|]. intros O Hn _.
+        apply G; [exact O|exact Hn].
       + destruct (call_invoked_wf r s req opts proc args kw oracle k d callee o W I Hk Hs Ecall)
           as (W2 & J2 & _ & _ & Hcl).
         destruct (call_invoked_reg _ _ _ _ _ _ _ _ _ _ _ _ _ _ Ecall) as (rg & rcv & invid & det & Hmt & Eo).
